@@ -14,8 +14,10 @@ Local Open Scope nat_scope.
    wg.Done; closeIf; return }; Conn.dispatch = internal (sync); `go` background; foreground (sync);
    hSet.dispatch = one `go func` per handler + wg.Wait(); h_001 starts with `defer conn.dispatch`
    and CONNECTED has no internal handler; closeIf: cancel, drain loop with `recv done` fed by a
-   goroutine doing conn.wg.Wait(), then conn.dispatch (DISCONNECTED) after the loop (only the order
-   of these five statements is pinned, so unrelated edits of closeIf do not alarm); capacity 32. *)
+   goroutine doing conn.wg.Wait(), then conn.dispatch (DISCONNECTED) after the loop, the connection
+   lock held from the guard until after the wait (a Connect() issued meanwhile must not start a second
+   event loop while handlers of this connection still run) — only the order of these statements is
+   pinned, so unrelated edits of closeIf do not alarm; recv frames with ReadString; capacity 32. *)
 Lemma tie_C03 :
   flow_client_Conn_dispatch
     = ["conn.intHandlers.dispatch"; "go conn.bgHandlers.dispatch"; "conn.fgHandlers.dispatch"]%string
@@ -33,9 +35,11 @@ Lemma tie_C03 :
   /\ existsb (String.eqb "CONNECTED") var_client_intHandlers = false
   /\ List.length (filter (String.eqb """001""") var_client_intHandlers) = 1
   /\ existsb (String.eqb """001""") var_client_stHandlers = false
-  /\ filter (fun x => existsb (String.eqb x) ["conn.die"; "conn.wg.Wait"; "recv conn.in"; "recv done"; "conn.dispatch"]%string)
+  /\ filter (fun x => existsb (String.eqb x) ["conn.mu.Lock"; "conn.mu.Unlock"; "conn.die"; "conn.wg.Wait";
+                                                "recv conn.in"; "recv done"; "conn.dispatch"]%string)
             flow_client_Conn_closeIf
-     = ["conn.die"; "conn.wg.Wait"; "recv conn.in"; "recv done"; "conn.dispatch"]%string
+     = ["conn.mu.Lock"; "conn.mu.Unlock"; "conn.die"; "conn.wg.Wait"; "recv conn.in"; "recv done";
+        "conn.mu.Unlock"; "conn.dispatch"]%string
   /\ filter (fun p => String.eqb (snd p) "conn.in") chan_sends_client = [("Conn.recv", "conn.in")]%string
   /\ filter (fun p => String.eqb (snd p) "conn.in") chan_recvs_client
      = [("Conn.closeIf", "conn.in"); ("Conn.drainIn", "conn.in"); ("Conn.runLoop", "conn.in")]%string
